@@ -149,6 +149,15 @@ func reencodings(rng *rand.Rand, orig []byte) []mutant {
 				out = append(out, mutant{Bytes: b, Label: kind + "/replay:signer-key-extended"})
 			}
 		}
+		// a signature with a byte appended (a verifier that strips or ignores surplus signature bytes accepts
+		// the same signature under 256 further encodings)
+		if t := core.DecodeTx(orig); t != nil && len(t.Signatures) > 0 {
+			i := rng.Intn(len(t.Signatures))
+			t.Signatures[i].Signed = append(append([]byte{}, t.Signatures[i].Signed...), byte(rng.Intn(256)))
+			if b := encodeSigned(t); b != nil {
+				out = append(out, mutant{Bytes: b, Label: kind + "/replay:signature-extended"})
+			}
+		}
 	}
 	// surplus signature: the signature list itself is not signed; the required signatures stay in front
 	if base.Type != action.OLVM {
